@@ -91,6 +91,7 @@ func (s *strConvAccErr) SplitUTCTimings(key, val string) []UTCTimingMethod {
 			UtcTimingNone, UtcTimingHttpHead:
 			utcTimingMethods[i] = utcVal
 		case UtcTimingKeep:
+			utcTimingMethods[i] = utcVal
 			keepSet = true
 		default:
 			s.err = fmt.Errorf("key=%q, val=%q is not a valid UTC timing method", key, val)
